@@ -123,7 +123,7 @@ lean/                        lake project: libs Amqp, Theorems, Driver; lean_exe
   Amqp/*.lean                hand-written executable models (import nothing but core Lean)
   Amqp/Gen/*.lean            GENERATED from /repo on every run (committed for the pinned tree)
   Theorems/Cxx.lean          property theorems;  Theorems/Lemmas/*.lean helper lemmas
-  Driver/*.lean              line protocol: first word selects the model (S K W R F V M H Z Y C E L N P Q X T G D)
+  Driver/*.lean              line protocol: first word selects the model (S K W R F V M H Z Y C E L N P Q X T G D I U J B O A)
 tools/check.py               the check (steps 1–5), evidence, replays, known findings
 tools/props.py               registry: per property the theorems, harness modules, generated files, claim text
 tools/gen_manifest.py        MANIFEST.json from the registry;  tools/gen_design.py  this file
@@ -132,8 +132,9 @@ tools/baseline.sh            the repository's own 389-test baseline (guard off)
 tools/run_all.sh             every claimed check, one line each
 harness/                     Rust crate `vharness <module> --tier --seed --report [--replay f]`
   src/peer.rs                scripted AMQP peer over an in-memory stream, paused tokio clock
-  src/<module>.rs            codec specenc typed frame session sessionwire held credit recvcredit reasm ids settle
-                             connlife life limits failprop hostile cancel sasl pipeline txn delivery (+ e2e, spinprobe, common)
+  src/<module>.rs            codec specenc typed frame framebody session sessionwire held credit lsender recvcredit reasm
+                             chunks ioread ids settle connlife life limits failprop hostile cancel sasl pipeline txn delivery
+                             (+ e2e, spinprobe, common)
   src/gen_typed.rs           GENERATED from /repo on every run: generators and field accessors of every composite
 corpus/<id>/*.json           minimised past failures and fixed defects; run first, deterministically
 seeded/<id>/                 seeded changes kept from the campaign (§9): patch.diff, demo, meta.json
@@ -235,6 +236,34 @@ queue) with the first detach if there is one; the two ways a seeded change broke
 accepted the link the last one decides the credit; `refused_frame_leaves_nothing` (C10) that a
 contradictory continuation frame leaves the delivery in progress exactly as it was.
 
+*Chunks, frame bodies, batch disposal, symbol tables* (fourth session). `Amqp/Chunks.lean` is the reader
+a multi-frame delivery is decoded from — `util::ByteReader` over the list of the frames' payloads, with the
+conditions and the arithmetic of its `read` regenerated — and `std`'s `read_exact` over it;
+`read_refines_concat` says that for every chunking (empty chunks anywhere) and every sequence of destination
+sizes what is copied is the next bytes of the concatenation and the count returned is their number, and
+`chunk_stream_is_the_concatenation` that `read_exact` over the chunks is `read_exact` over a stream holding
+the concatenation — the stream `Amqp.IoRead` stands on, so that `io_refines_slice` carries over: decoding a
+delivery from its frames' payloads is decoding it from one buffer (this was an assumption of C10 and C01
+before). `Amqp/FrameBody.lean` is what `FrameDecoder::decode` makes of one frame after the length-delimited
+layer: the header step (`Amqp.FrameHeader`), the empty body, the performative decoded by the typed model,
+and what follows it kept as the payload of a transfer and of a transfer only (which arm splits off the
+rest is a generated fact); `transfer_frame_decodes` / `transfer_frame_decodes_any_encoding` are
+`typed_roundtrip` / `typed_variants_accepted` with the payload as the tail, so C06's byte-level theorems now
+end in decoded performatives and payload pieces, for our encoding and for any a peer may choose.
+`Amqp/Dispose.lean` is the receiver's batch disposal: `consecutive_chunk_indices` as `windows(2)` over the
+sorted batch, the `prev_ind` walk of `dispose_all`, the disposition of each slice; `walk_is_runs` proves
+that the index walk yields the maximal runs of neighbours that are consecutive and share their
+rcv-settle-mode (`util::is_consecutive` regenerated), `batch_named_exactly` that the dispositions name
+exactly the deliveries of the batch, `batch_modes_uniform` that each delivery is under a disposition whose
+settled flag comes from its own mode. `Theorems/Enums.lean` works on tables that are entirely generated
+(`Gen/Enums.lean`: every `match` of fe2o3-amqp-types that writes an enumeration as a symbol or reads one
+back): `symbol_tables_inverse`, `error_conditions_match_spec`. Smaller additions: `takeAfterRoom` /
+`no_send_on_revoked_credit` (C08: the credit is looked at again after room was awaited),
+`peerEndQueued` / `peer_end_answered_with_frames_queued` (C13: the peer's end taken up while link frames are
+queued is answered by `end_session`), and the source facts `source_zero_width_codes`,
+`source_credit_taken_before_decoding`, `source_append_only_pushes`, `source_take_rechecks`,
+`source_payload_of_transfer_only`, `source_dispose_shape`, `source_chunk_reader_shape`.
+
 *Driver* (`lean/Driver`) parses one line, runs the model, prints one canonical line. Errors are a
 small enum, maps are printed in wire order, byte strings in hex; nothing that came out of a hash
 map or a clock is compared.
@@ -250,6 +279,7 @@ Generated on every run (a `(changed)` file triggers a Lean rebuild):
 | `Fsm.lean` | `fe2o3-amqp-types/src/states.rs`, `connection/mod.rs`, `session/mod.rs`, `link/*.rs`, `connection/engine.rs`, `session/engine.rs` | the state enums; for each `match self.local_state` a total table state → next state / illegal (nested Boolean matches become parameters); which arm each state takes in the engines; `matches!` predicates |
 | `Schemas.lean` (+ `harness/src/gen_typed.rs`) | every `struct` of `fe2o3-amqp-types/src` with `#[amqp_contract(..)]` and a `SerializeComposite` / `DeserializeComposite` derive | descriptor name and code (computed as the derive macro computes them), encoding, and the fields in declaration order with wire name, declared type, `default` / `multiple`; the same walk writes the harness' generator and field accessor of every list-encoded composite, so that the model's schema and the harness' view of a value follow the working tree together |
 | `RoutingKernels`, `IoReadKernels`, `ListenerKernels`, `PendingDetachKernels` (third session; and further facts in `CreditKernels`, `RecvCreditKernels`, `ReasmKernels`) | `session/mod.rs`, `connection/mod.rs`, `serde_amqp/src/read/ioread.rs`, `acceptor/session.rs`, `link/shared_inner.rs`, `link/sender_link.rs`, `link/receiver_link.rs`, `link/receiver.rs` | presence and order of the statements the hand-written models mirror: which table is read / taken from / written when a frame is routed; what the io reader drains and when it counts (`drain` in both branches of `read_exact`, never `clear`; the forwarding read does not go through the counting `read_bytes`); the listener replays buffered flows with a `for` (no `pop`, no `rev`); the search for a pending detach skips other frames and ends on any failure of `try_recv`; one credit per delivery (`credit_available(1)`, `take_credit(1)`); the receiver's count is the attach's `initial-delivery-count` as it is; a batch disposal counts every delivery; a continuation frame is checked before its payload is kept. Each model states these as a Boolean (`sourceShape`, `replayOldestFirst`, `skipsOthers`, …) and a theorem `source_…` proves it `true` for the tree as it is — eleven of the forty round-3 changes (C05-c1, C08-c1, C08-c2, C09-c1, C09-c2, C10-c1, C11-c1, C13-c1, C14-c1, C15-c2, C20-c2) change the generated facts they were written for, so that the proof breaks before any run starts |
+| `ChunksKernels`, `Enums.lean` (fourth session; and further facts in `SettleKernels`, `FrameHeaderKernels`, `CreditKernels`, `RecvCreditKernels`, `ReasmKernels`, `Codes`) | `fe2o3-amqp/src/util/mod.rs`, every file of `fe2o3-amqp-types/src`, `link/receiver_link.rs`, `frames/amqp.rs`, `link/sender_link.rs`, `link/state.rs`, `link/incomplete_transfer.rs`, `serde_amqp/src/de.rs` | the two conditions, the `split_to` argument and the three assignments of `ByteReader::read` with their order; every `match` that writes an enumeration as a symbol or reads one back (22 tables); `is_consecutive` as a whole, the shape of `consecutive_chunk_indices` / `dispose_all` / `dispose_consecutive`; which arm of the frame decoder keeps what follows the performative; the re-check of the credit after room was awaited; credit taken before the payload is decoded; `append` only pushes; the constructors charged against the budget of body-less array elements (the first arm of `take_zero_width_elements`, as a list). Two changes to the translator itself: a `let mut` local is a variable from then on, not its initial value (it used to be inlined, which made `encode_transfer`'s loop condition look like a function of the initial sizes; the frame model now carries `remaining_bytes` through the loop with the generated assignment), and every kernel the translator cannot translate is emitted as its source text (`…_src : String`), so that a model can pin it (`parksEveryLastTransfer`) |
 | `SaslTables.lean`, `TxnTables.lean` | `fe2o3-amqp-types/src/sasl`, `acceptor/connection.rs`, `connection/builder.rs`, `sasl_profile/mod.rs`, `transaction/coordinator.rs`, `transaction/session.rs` | `SaslCode` with wire values; per outcome code and per frame kind what the listener's and the client's loops do; what the coordinator does with each value of `fail`; what commit / rollback do with an unknown id |
 
 The translator is deliberately narrow: it understands literals, places, arithmetic, comparisons,
@@ -307,6 +337,22 @@ credit streams, a detach-and-resume whose second attach carries another delivery
 deliveries queued ahead of the peer's detach (`life`), multi-frame deliveries to a mode-second
 receiver and split pre-settled sends on a mixed link (`settle`); `limits` (begin / end histories with
 holes) now also runs for C11.
+
+Added in the fourth session and its round of seeded changes (§9, round 4): `chunks` (random chunk lists,
+read / read_exact sequences, the byte iterator, values and messages decoded from every kind of cut of
+their encoding, through a new cfg-guarded hook), `framebody` (FrameDecoder::decode on generated frames of
+all nine kinds with payloads of every shape, performatives written as a peer may write them, frames cut
+short and with damaged headers), and in the existing modules: dispositions of `dispose_all` calls compared
+range by range with `Amqp.Dispose`, and a listener-side sending link whose acceptor supports fewer
+receiver-settle-modes than the peer asks for (`settle`); sender delivery-counts at the wrap, recv futures
+dropped after k polls, auto-accepting receivers, restated credit (`delivery`); a session window stated by
+flows pipelined behind an attach (`lsender`, also for C07); undecodable deliveries (`recvcredit`); credit
+taken back while a send waits for room (`credit`); values with several large arrays, all standard error
+conditions (`codec`, `typed`); deliveries in up to 200 frames (`reasm`); legal-but-unusual flows as hostile
+items (`hostile`); pre-settled deliveries, a full queue and a late first recv (`cancel`); a silent peer that
+reads nothing behind a 32-octet stream (`limits`); `on_detach` before the link is let go, and the peer's end
+taken up while link frames are queued (`life`); an auto-accepting receiver in half of the failure
+injections (`failprop`); a rejected discharge followed by a second one (`txn`).
 
 """
 
@@ -376,6 +422,23 @@ right; the machinery was corrected, nothing was added to the known findings, no 
   red on the unchanged tree — I was editing `/verif` while the queue that tries the changes was
   running in it. Both were re-tried on a quiet tree (C08-c1 turned out to be missed and got its own
   check); since then new checks are developed in copies outside `/verif` and copied in between runs.
+* Fourth session, all found on the unchanged tree while the new scenarios were being written in a copy
+  of `/verif` against a clean clone of `/repo`, none of them committed as a finding:
+  `lsender` with a small pipelined session window first applied the credit oracle to transfers the link had
+  handed over under an earlier flow and the session then held back (they arrive after later flows: in
+  flight, not over the limit) — such cases are judged for the window only; the probe "nothing is there once
+  all credit is used" of `delivery` first ran against receivers accepted by a listener, which start with
+  Auto(200) (what they find may have been sent under that) — it is made for receivers built with manual
+  credit only; `hostile`'s unusual flows first included drain requests, after which the scripted peer never
+  granted credit again and the liveness probe's send waited — they are echo requests now; `life` with
+  `on_detach` first expected the later `close()` to report the peer's error that `on_detach` had already
+  handed to the application; `recvcredit` first forgot that the error of an undecodable delivery carries
+  the DeliveryInfo the application disposes of it with (without it an Auto(1) link looked stalled).
+* Fourth session, a lesson about the machinery: a `pkill` meant for a build of the working copy also killed
+  the build of the queue that was trying seeded change C02-d2; the change was first recorded as caught
+  ("harness-build") and not confirmed. It was re-confirmed in a clean clone and re-tried on a quiet tree (it
+  was in fact missed, and got its own scenario). The working copy now has its own target directory and
+  its own clone of `/repo`.
 
 ## 11. Trusted base
 
@@ -399,7 +462,8 @@ right; the machinery was corrected, nothing was added to the known findings, no 
 
 Hooks are behind `--cfg fe2o3_amqp_verif` (module `fe2o3_amqp::verif`: `SessionProbe`,
 `sender_credit` with `try_consume`, `split_transfer`, `sender_unsettled_tags` / `receiver_unsettled_tags`, two
-scheduling points); they add code only, are listed in `MANIFEST.hooks`, and with the guard off the
+scheduling points, and since the fourth session `chunk_reader_reads` / `chunk_reader_read_exact` /
+`chunk_byte_iterator` / `chunk_reader` over `util::ByteReader`, whose constructor is guarded too); they add code only, are listed in `MANIFEST.hooks`, and with the guard off the
 389-test baseline passes (`tools/baseline.sh`, run after every commit to `/repo`). Every repair is
 one unguarded commit whose message starts with `fix:` and touches only what the defect requires;
 they are listed in §8 with the property whose check found them.
@@ -411,6 +475,13 @@ they are listed in §8 with the property whose check found them.
   futures after k polls, a 4-thread runtime for C01) and labelled as measured, not proved. Two of
   the defects found this way (the engine wait cycle 0f7cff3, the unsettled-entry race 4ebf411) are
   of exactly this kind: no theorem about the logic could have shown them.
+* `Amqp.Chunks` models `read` and `read_exact`; the io reader on top of it is `Amqp.IoRead` with the
+  concatenation as its stream (proved equivalent), the decoder on top of that is the slice decoder (by
+  `io_refines_slice`): the composition is stated in prose and checked by the `chunks` runs on whole values
+  and messages, not as one Lean theorem. `Amqp.FrameBody` reads performatives with the typed model, which is
+  stricter than the implementation on damaged input (counted in the evidence, as for C03). The section
+  counting of `IncompleteTransfer::append` (section-number / section-offset of the `received` state) is not
+  modelled. `Amqp.Dispose` starts after the sort and the filter of `dispose_all` (the runs apply both).
 * The typed layer models the 32 list-encoded composites, the unions built from them, and messages
   (`Amqp/Message.lean`: sections in the order of the standard, the three body kinds, batches of data
   and amqp-sequence sections; `message_roundtrip`). `Body::Empty` is not a body of the AMQP type
@@ -528,6 +599,8 @@ def section9():
                "`/repo` (nothing from `/verif`), asked to break the property while the code still compiles and the existing tests "
                "pass, and to demonstrate the break. Each was confirmed, then applied to `/repo` (`git apply`), checked with the "
                "quick tier, and undone. `how` says which part of the check fired.\n")
+    n4 = len([j for j in rows if re.search(r"-d\d$", j.get("id", ""))])
+    m4 = len([j for j in rows if re.search(r"-d\d$", j.get("id", "")) and j.get("note")])
     n3 = len([j for j in rows if re.search(r"-c\d$", j.get("id", ""))])
     m3 = len([j for j in rows if re.search(r"-c\d$", j.get("id", "")) and j.get("note")])
     out.append(f"Three rounds of two changes per property: ids `Cxx-1/2` (first session), `Cxx-b1/b2` (second), `Cxx-c1/c2` (third). From the "
@@ -535,7 +608,10 @@ def section9():
                f"functions, mechanisms and clauses of the statement; the third round ({n3} changes) was accordingly the hardest for the checks: "
                f"{m3} were missed when first tried (listener-side paths, resumption, streams instead of slices, two ends configured "
                f"differently, siblings instead of depth, a peer that keeps talking), every one of which led to a new scenario, a new model or a new theorem "
-               f"listed below.\n")
+               f"listed below. A fourth round (`Cxx-d1/d2`, {n4} changes, fourth session) was run the same way: {m4} were missed when first tried "
+               f"(the listener side once more, applications that drop futures or restate credit in the end-to-end runs, delivery-counts at the wrap, "
+               f"peers that encode differently from us, legal-but-unusual frames, totals across several arrays, queues that are full at the wrong moment); "
+               f"every one is caught now, and seven of them also by a proof obligation that did not exist before.\n")
     out += ["| id | property | the change | caught by quick | how | caught by other checks |", "|---|---|---|---|---|---|"]
     for j in rows:
         summ = j.get('summary', '').replace('|', '/')
